@@ -7,14 +7,10 @@ open Chewing Chewing.C04 Chewing.C05 Chewing.C06
 
 variable {D L : Type} {env : Env D L} {G : D → Prop}
 
-/-- what this package's theorem covers: everything except, **while a candidate list is open**,
-    (1) `jump_to_*_selection_point` on a phrase list, and (2) when the list is a *symbol table* (`SymbolSelector`, opened with
-    `` ` `` / Ctrl+0 / Ctrl+1 or on a symbol without special variants): `select(n)` and the keys whose arm
-    reads or changes the list (`selHardKey`: Down, Space, j, k, Left, Right, PageUp, PageDown, digits —
-    without Ctrl/Shift) -/
+/-- what this package's theorem covers: everything except `jump_to_{first,last,next,prev}_selection_point`
+    **while a phrase candidate list is open** (`PhraseSelector::{next,prev}_selection_point`,
+    `jump_to_*`) -/
 def Covered (e : Editor D L) : Op L → Prop
-  | .key ev => ∀ s, e.state = .selecting s → selHardKey ev = false ∨ selNoTable s
-  | .select _ => ∀ s, e.state = .selecting s → selNoTable s
   | .jump _ => ∀ s p, e.state = .selecting s → s.sel ≠ .phrase p
   | _ => True
 
@@ -36,13 +32,12 @@ theorem select_tail_ok (hE : EnvOK env G) {sh : Shared D L} {st : St} (h : ShInv
   · rw [if_neg hc]
     exact .ok ⟨h, hs⟩
 
-theorem select_api_ok (hE : EnvOK env G) {e : Editor D L} (hi : EditorInv env G e) (n : Nat)
-    (hc : ∀ s, e.state = .selecting s → selNoTable s) : OkAnd (fun x => EditorInv env G x.1) (e.select env n) := by
+theorem select_api_ok (hE : EnvOK env G) {e : Editor D L} (hi : EditorInv env G e) (n : Nat) : OkAnd (fun x => EditorInv env G x.1) (e.select env n) := by
   unfold Editor.select
   split
   · next s hst =>
     have hs : SelInv env e.shared s := by have := hi.st; rw [hst] at this; exact this
-    obtain ⟨⟨s', sh', t⟩, hq, h1, h2, h3⟩ := select_ok hE hi.sh hs (hc s hst) n
+    obtain ⟨⟨s', sh', t⟩, hq, h1, h2, h3⟩ := select_ok hE hi.sh hs n
     rw [hq]
     cases t with
     | toState st =>
@@ -61,16 +56,14 @@ theorem apply_ok (hE : EnvOK env G) {e : Editor D L} (hi : EditorInv env G e) (o
     have hpk : OkAnd (fun x => EditorInv env G x.1) (e.processKey env ev) := by
       cases hst : e.state with
       | selecting s =>
-        rcases hc s hst with hk | hnt
-        · exact processKey_selecting_of hE hst ev (selectingNext_easy (preamble_inv hi.sh) (selInv_preamble hi hst) ev hk)
-        · exact processKey_selecting_of hE hst ev (selectingNext_ok hE (preamble_inv hi.sh) (selInv_preamble hi hst) hnt ev)
+        exact processKey_selecting_of hE hst ev (selectingNext_ok hE (preamble_inv hi.sh) (selInv_preamble hi hst) ev)
       | entering => exact processKey_ok hE hi (fun s hs => by rw [hst] at hs; cases hs) ev
       | enteringSyllable => exact processKey_ok hE hi (fun s hs => by rw [hst] at hs; cases hs) ev
       | highlighting m => exact processKey_ok hE hi (fun s hs => by rw [hst] at hs; cases hs) ev
     obtain ⟨⟨e', b⟩, hq, h1⟩ := hpk
     simp only [Editor.apply]; rw [hq]; exact .ok h1
   | select n =>
-    obtain ⟨⟨e', b⟩, hq, h1⟩ := select_api_ok hE hi n hc
+    obtain ⟨⟨e', b⟩, hq, h1⟩ := select_api_ok hE hi n
     simp only [Editor.apply]; rw [hq]; exact .ok h1
   | startSelecting =>
     obtain ⟨⟨e', b⟩, hq, h1⟩ := startSelecting_api_ok hE hi
